@@ -22,8 +22,8 @@ Mismatch(r, sg, R) ==
   ELSE IF R.errs # {} THEN "reference semantics rejects the program under the final symbol values"
   ELSE IF \E k \in DOMAIN R.tab : R.tab[k].k = "num" /\ (k \notin DOMAIN sg \/ sg[k] # R.tab[k])
          THEN "a symbol's final value is not the address/value the reference layout gives it"
-  ELSE IF \E k \in DOMAIN sg : sg[k].k = "num" /\ k \notin DOMAIN R.tab
-         THEN "observed symbol that the program does not define"
+  ELSE IF \E i \in 1..Len(r.syms) : r.syms[i].kind = "num" /\ r.syms[i].ty # "arg" /\ r.syms[i].path \notin DOMAIN R.tab
+         THEN "observed symbol that the program does not define"     \* (macro arguments of earlier passes' numbering may linger)
   ELSE IF DOMAIN R.segs # ObsSegNames(r) THEN "segment sets differ"
   ELSE IF \E n \in DOMAIN R.segs : LET o == ObsSeg(r, n) IN
               \/ o.bytes # SegBytes(R.segs[n])
